@@ -12,6 +12,7 @@ import (
 	"fmt"
 	"hash"
 	"math/big"
+	"sort"
 	"strings"
 
 	"github.com/go-jose/go-jose/v3"
@@ -179,4 +180,55 @@ func verifyJWT(tok string, pub crypto.PublicKey) error {
 		}
 	}
 	return fmt.Errorf("alg %q does not fit key %T", alg, pub)
+}
+
+// jwtAccessClaims: the scope and audience a JWT access token names itself (what a resource server that validates
+// offline reads); ok is false for opaque tokens.
+func jwtAccessClaims(tok string) (scopes, aud []string, ok bool) {
+	if strings.Count(tok, ".") != 2 {
+		return nil, nil, false
+	}
+	_, cl, err := decodeJWT(tok)
+	if err != nil {
+		return nil, nil, false
+	}
+	seen := map[string]bool{}
+	addS := func(x string) {
+		if x != "" && !seen[x] {
+			seen[x] = true
+			scopes = append(scopes, x)
+		}
+	}
+	switch v := cl["scp"].(type) {
+	case []any:
+		for _, x := range v {
+			if sx, isS := x.(string); isS {
+				addS(sx)
+			}
+		}
+	case string:
+		for _, x := range strings.Fields(v) {
+			addS(x)
+		}
+	}
+	if v, isS := cl["scope"].(string); isS {
+		for _, x := range strings.Fields(v) {
+			addS(x)
+		}
+	}
+	switch v := cl["aud"].(type) {
+	case []any:
+		for _, x := range v {
+			if sx, isS := x.(string); isS && sx != "" {
+				aud = append(aud, sx)
+			}
+		}
+	case string:
+		if v != "" {
+			aud = append(aud, v)
+		}
+	}
+	sort.Strings(scopes)
+	sort.Strings(aud)
+	return scopes, aud, true
 }
